@@ -172,7 +172,10 @@ def elaborate(case):
                     a = pyrtl.working_block().wirevector_by_name.get(an)
                     if a is None:
                         a = pyrtl.Input(AW, an)
-                    tgt[a] |= d
+                    if how == 'enabled':     # the write carries its own enable on top of the branch predicate
+                        tgt[a] |= pyrtl.MemBlock.EnabledWrite(d, pyrtl.Input(1, 'e_%s_%d' % (tname, ni)))
+                    else:
+                        tgt[a] |= d
                 elif isinstance(tgt, pyrtl.Register):
                     tgt.next |= d
                 else:
@@ -289,7 +292,8 @@ def cases(tier, seed):
         kind = rng.choice(['reg', 'reg_d', 'reg_d', 'wire_d', 'mem'])
         mask = rng.randrange(1, 1 << n)
         amap = {str(k): rng.choice(['pre', 'post']) for k in range(n) if mask >> k & 1}
-        rhs = {k: rng.choice(['self', 'const', 'in'] if kind.startswith('reg') else ['const', 'in']) for k in amap}
+        rhs = {k: rng.choice(['self', 'const', 'in'] if kind.startswith('reg') else (['enabled', 'enabled', 'const', 'in'] if kind == 'mem'
+                                                                                      else ['const', 'in'])) for k in amap}
         out.append({'shape': to_json(sh), 'targets': [{'kind': kind, 'name': 't0'}], 'assign': {'t0': amap}, 'K': 2,
                     'rhs': {'t0': rhs}})
     for sh in shapes5:
@@ -397,7 +401,8 @@ def run_case(case, ob, tier):
                     goals.append(('memread:%s@%d' % (name, t), got == z3.Select(arr, v.inp('ra_' + name, t, AW)), site + ':mem-read'))
                     new = arr
                     for i in idx:
-                        new = z3.If(act[i], z3.Store(arr, v.inp(addr_name(case, name, i), t, AW), rhs_term(case, name, kind, i, t, v, None)), new)
+                        wen = act[i] if rhs_kind(case, name, i) != 'enabled' else z3.And(act[i], v.inp('e_%s_%d' % (name, i), t, 1) == 1)
+                        new = z3.If(wen, z3.Store(arr, v.inp(addr_name(case, name, i), t, AW), rhs_term(case, name, kind, i, t, v, None)), new)
                     memstate[name] = new
                     continue
                 if kind in ('wire', 'wire_d'):
@@ -477,7 +482,7 @@ def replay(cex):
             got = trace['o_' + name][t]
             if kind == 'mem':
                 exp = memstate[name].get(val('ra_' + name, t), 0)
-                if on:
+                if on and (rhs_kind(case, name, on[-1]) != 'enabled' or val('e_%s_%d' % (name, on[-1]), t)):
                     memstate[name][val(addr_name(case, name, on[-1]), t)] = dval(name, kind, on[-1], t, None)
             elif kind in ('wire', 'wire_d'):
                 exp = dval(name, kind, on[-1], t, None) if on else (val('dflt_' + name, t) if kind == 'wire_d' else 0)
